@@ -904,15 +904,16 @@ def CheckBlock(block, fCheckPoW = True, fCheckMerkleRoot = True, cur_time=None):
     if not block.vtx[0].is_coinbase():
         raise CheckBlockError("CheckBlock() : first tx is not coinbase")
 
-    # Check rest of transactions. Note how we do things "all at once", which
-    # could potentially be a consensus failure if there was some obscure bug.
+    # Check all transactions, the coinbase included. Note how we do things
+    # "all at once", which could potentially be a consensus failure if there
+    # was some obscure bug.
 
     # For unique txid uniqueness testing. If coinbase tx is included twice
     # it'll be caught by the "more than one coinbase" test.
     unique_txids = set()
     nSigOps = 0
-    for tx in block.vtx[1:]:
-        if tx.is_coinbase():
+    for i, tx in enumerate(block.vtx):
+        if i > 0 and tx.is_coinbase():
             raise CheckBlockError("CheckBlock() : more than one coinbase")
 
         CheckTransaction(tx)
